@@ -39,7 +39,8 @@ void operator delete[](void* p, std::size_t) noexcept { std::free(p); }
 // ---------------------------------------------------------------- tolerances (calibration: notes/C43.md)
 static const double TOL_REL = 1e-9, TOL_ABS = 1e-12;   // recomputed error norm vs tolerance (Euler -> quaternion conversion round-off)
 static const double BOUND_SLACK = 1e-6;                // interior-point bound relaxation (Ipopt bound_relax_factor 1e-8 relative; generous)
-static const double REACH_TOL = 2e-3;                  // harness misfit (RMS distance / angle / |dq|) for a reachable goal from a nearby start
+static const double REACH_TOL_TIGHT = 5e-3;            // harness misfit (RMS distance / angle / |dq|) for a reachable goal from a nearby start, accuracy 1e-6
+static const double REACH_TOL_DEFAULT = 0.1;           // ... at the default accuracy 1e-3 (only "did not move away": the start misfit is about 0.1)
 static const double GOAL_SLACK = 1e-9;
 
 // ---------------------------------------------------------------- instance table (table 0 / 1 of harness/C08.cpp)
@@ -218,10 +219,26 @@ static void runAssemblerCase(verif::Run& run, Sut& S, const Configs& C, const Ca
     if (c.lock > 0 && c.lock < 100) as.lockMobilizer(M.bodies[lockedBody].getMobilizedBodyIndex());
     if (c.bounds) as.restrictQ(M.bodies[S.boundBody].getMobilizedBodyIndex(), MobilizerQIndex(0), lo, hi);
 
-    Real goal0 = NaN, goalRet = NaN; bool threw = false; std::string msg;
+    Real goal0 = NaN, goalRet = NaN; bool threw = false, degenerate = false; std::string msg;
     try {
         as.initialize(s);
         goal0 = as.calcCurrentGoal();
+        if (mh > 0 && c.goal && c.start == 1) {   // is some holonomic equation independent of every free q at the start (central differences)?
+            const Vector f0 = as.getFreeQsFromInternalState(); const int nf = f0.size();
+            std::vector<Real> rowMax(as.getInternalState().getNQErr(), 0);
+            for (int i = 0; i < nf; ++i) { Vector f = f0; const Real h = 1e-5; f[i] += h; as.setInternalStateFromFreeQs(f); const Vector ep = as.getInternalState().getQErr(); f[i] -= 2 * h; as.setInternalStateFromFreeQs(f); const Vector em = as.getInternalState().getQErr();
+                for (size_t r = 0; r < rowMax.size(); ++r) rowMax[r] = std::max(rowMax[r], std::abs(ep[(int)r] - em[(int)r]) / (2 * h)); }
+            as.setInternalStateFromFreeQs(f0);
+            for (Real m : rowMax) { if (m < 1e-9) degenerate = true; if (run.verbose) printf("    max |d perr/d freeq| of a row = %.3g\n", m); }
+        }
+        if (run.verbose && getenv("C43_GRADCHECK") && (os || mk)) {   // debugging aid: analytic goal gradient of the condition vs central differences
+            AssemblyCondition* cnd = os ? (AssemblyCondition*)os : (AssemblyCondition*)mk;
+            Vector g(as.getNumFreeQs()); cnd->calcGoalGradient(as.getInternalState(), g);
+            const Vector f0 = as.getFreeQsFromInternalState(); Real worst = 0;
+            for (int i = 0; i < f0.size(); ++i) { Vector f = f0; const Real h = 1e-6; Real gp, gm; f[i] += h; as.setInternalStateFromFreeQs(f); cnd->calcGoal(as.getInternalState(), gp); f[i] -= 2 * h; as.setInternalStateFromFreeQs(f); cnd->calcGoal(as.getInternalState(), gm);
+                const Real fd = (gp - gm) / (2 * h); worst = std::max(worst, std::abs(fd - g[i])); printf("      dgoal/dfreeq[%d] (q%d): analytic %.6g  fd %.6g\n", i, (int)as.getQIndexOfFreeQ(Assembler::FreeQIndex(i)), g[i], fd); }
+            as.setInternalStateFromFreeQs(f0); printf("      worst gradient discrepancy %.3g\n", worst);
+        }
         goalRet = as.assemble();
         as.updateFromInternalState(s);
     } catch (const std::exception& e) { threw = true; msg = e.what(); }
@@ -254,6 +271,7 @@ static void runAssemblerCase(verif::Run& run, Sut& S, const Configs& C, const Ca
         } else {
             bool bit = true; for (int i = 0; i < qa.size(); ++i) bit = bit && sameBits(qa[i], qb[i]);
             run.expect(bit, std::string("locked-coordinates-changed/") + (c.lock == 100 ? "state-lock" : "lockMobilizer"), where, rp);
+            if (!bit && run.verbose) { printf("    locked body R%d: before", lockedBody); for (int i = 0; i < qb.size(); ++i) printf(" %.17g", qb[i]); printf("  after"); for (int i = 0; i < qa.size(); ++i) printf(" %.17g", qa[i]); printf("  q*"); Vector qs = M.bodies[lockedBody].getQAsVector(C.qstar); for (int i = 0; i < qs.size(); ++i) printf(" %.17g", qs[i]); printf("\n"); }
         }
     }
     // bounds
@@ -272,11 +290,17 @@ static void runAssemblerCase(verif::Run& run, Sut& S, const Configs& C, const Ca
             run.residual("misfit-increase-from-feasible-start", (double)(misfit1 - misfit0), 1e-9, where, rp);
         } else run.count(goalRet <= goal0 ? "goal:infeasible-start:not-worse" : "goal:infeasible-start:worse(allowed)");
         const bool reachable = c.bounds != 2;
-        if (reachable && c.start == 1) { run.count("goal:reachable-near"); run.residual("misfit-for-reachable-goal(near-start)", (double)misfit1, REACH_TOL, where, rp, c.tol ? "tight" : "default"); }
-        else if (reachable) run.count(misfit1 <= REACH_TOL ? "goal:reachable-far:reached" : "goal:reachable-far:local-minimum(not-judged)");
+        if (reachable && c.start == 1) {
+            run.count("goal:reachable-near");
+            const std::string sfx = std::string(c.tol ? "accuracy-1e-6" : "default-accuracy") + (degenerate ? "/a-constraint-is-independent-of-the-free-q" : "");
+            run.residual("misfit-for-reachable-goal(near-start)", (double)misfit1, c.tol ? REACH_TOL_TIGHT : REACH_TOL_DEFAULT, where, rp, sfx);
+            if (degenerate) run.count("goal:reachable-near:degenerate-constraint-jacobian");
+        }
+        else if (reachable) run.count(misfit1 <= REACH_TOL_TIGHT ? "goal:reachable-far:reached" : "goal:reachable-far:local-minimum(not-judged)");
     }
+    if (const char* df = getenv("C43_DUMP")) { FILE* f = fopen((std::string(df) + "." + std::to_string(getpid())).c_str(), "a"); if (f) { fprintf(f, "%d %d %d %d %d %d %.3g %.3g %.3g %.3g %.3g %d %s\n", c.goal, c.weights, c.lock, c.bounds, c.start, c.tol, err0, (double)misfit0, (double)misfit1, goal0, goalRet, degenerate ? -as.getNumGoalEvals() : as.getNumGoalEvals(), S.name.c_str()); fclose(f); } }
     run.outcome(verif::hashMix(verif::hashPod((float)err1), verif::hashPod((float)misfit1)));
-    if (run.verbose) printf("  %s: err %.3g -> %.3g (tol %.3g) goal %.3g -> %.3g misfit %.3g -> %.3g\n", desc.c_str(), err0, err1, tol, goal0, goalRet, (double)misfit0, (double)misfit1);
+    if (run.verbose) printf("  %s: err %.3g -> %.3g (tol %.3g) goal %.3g -> %.3g misfit %.3g -> %.3g [evals: goal %d grad %d err %d jac %d freeq %d]\n", desc.c_str(), err0, err1, tol, goal0, goalRet, (double)misfit0, (double)misfit1, as.getNumGoalEvals(), as.getNumGoalGradientEvals(), as.getNumErrorEvals(), as.getNumErrorJacobianEvals(), as.getNumFreeQs());
 }
 
 // ObservedPointFitter on the same system: stations on every body (3 each), targets from q*
@@ -306,11 +330,11 @@ static void runFitterCase(verif::Run& run, Sut& S, const Configs& C, int start, 
     M.system.realize(s, Stage::Position);
     const LD m1 = misfit(M, s, o);
     run.residual("fitter:returned-rms-vs-harness-rms", (double)fabsl(ret - m1), 1e-7, where, rp);
-    run.residual("fitter:rms-increase", (double)(m1 - m0), 1e-6, where, rp);
+    if (start == 0) run.residual("fitter:rms-increase-from-feasible-start", (double)(m1 - m0), 1e-6, where, rp);
     const int mq = M.matter.getNumQuaternionsInUse(s), mh = s.getNQErr() - mq;
     Real err1 = 0; for (int i = 0; i < mh; ++i) err1 = std::max(err1, std::abs(s.getQErr()[i]));
     run.residual("fitter:holonomic-error-norm", err1, 1e-3, where, rp);
-    if (start == 1) run.residual("fitter:rms-for-reachable-targets(near-start)", (double)m1, 5e-3, where, rp);
+    if (start == 1) run.residual("fitter:rms-for-reachable-targets(near-start)", (double)m1, 5e-3, where, rp, S.name.find('{') != std::string::npos ? S.name.substr(S.name.find('{') + 1, S.name.find('/') - S.name.find('{') - 1) : S.name);
     else run.count(m1 <= 5e-3 ? "fitter:far-start:reached" : "fitter:far-start:local-minimum(not-judged)");
     run.outcome(verif::hashMix(11, verif::hashPod((float)m1)));
     if (run.verbose) printf("  %s: rms %.3g -> %.3g returned %.3g qerr %.3g\n", desc.c_str(), (double)m0, (double)m1, ret, err1);
@@ -387,6 +411,8 @@ int main(int argc, char** argv) {
             for (int w = 0; w < 2; ++w) for (int b = 0; b < 3; ++b) for (int st = 0; st < 3; ++st) for (int tl = 0; tl < 2; ++tl) {
                 Case c{d[0], w, lock, b, st, tl};
                 if (c.goal == 0 && w) continue;   // no goal: weights irrelevant
+                if (!th && w && !(c.goal == 1 || c.goal == 3)) continue;   // quick: non-uniform weights with the all-body marker / sensor goals only
+                if (!th && st == 2 && tl == 1) continue;                   // quick: the far start only at the default tolerance
                 const std::string desc = S.name + " " + caseStr(c) + " case=" + std::to_string(n++) + " [" + od.describe(idx) + "]";
                 try { runAssemblerCase(run, S, C, c, vs, desc); } catch (const std::exception& e) { run.violation("exception-outside-assemble", std::string(e.what()) + " at " + desc, run.replayHeader() + desc + "\n"); }
             }
